@@ -451,6 +451,42 @@ def _py_floordiv(a, b):
     return z3.If(b > 0, a / b, (-a) / (-b))
 
 
+def _poisoning(name):
+    def f(self, *a):
+        poison("%s on int()/float() of a symbolic value outside a shadowed module (the result is only fit for message formatting)" % name)
+        return NotImplemented
+
+    return f
+
+
+class SymIntProxy(int):
+    """what int(<symbolic>) returns where `int` is NOT shadowed: good for '%d' in messages, poisons the path on any computation"""
+
+    def __new__(cls, sym):
+        o = int.__new__(cls, 0)
+        o.sym = sym
+        return o
+
+    __hash__ = int.__hash__
+
+
+class SymFloatProxy(float):
+    def __new__(cls, sym):
+        o = float.__new__(cls, 0.0)
+        o.sym = sym
+        return o
+
+    __hash__ = float.__hash__
+
+
+for _n in ("__add__", "__radd__", "__sub__", "__rsub__", "__mul__", "__rmul__", "__truediv__", "__rtruediv__", "__floordiv__", "__rfloordiv__",
+           "__mod__", "__rmod__", "__lt__", "__le__", "__gt__", "__ge__", "__eq__", "__ne__", "__neg__", "__abs__", "__bool__", "__index__",
+           "__pow__", "__round__"):
+    if _n != "__index__":
+        setattr(SymFloatProxy, _n, _poisoning(_n))
+    setattr(SymIntProxy, _n, _poisoning(_n))
+
+
 class SInt(SNum):
     __slots__ = ()
 
@@ -461,7 +497,10 @@ class SInt(SNum):
         return hash(concretize(s.z))
 
     def __int__(s):
-        return s
+        return SymIntProxy(s)
+
+    def __float__(s):
+        return SymFloatProxy(s)
 
     def __floordiv__(s, o):
         if isinstance(o, (SInt, int)) and not isinstance(o, bool):
@@ -538,11 +577,10 @@ class SReal(SNum):
         return SInt(z3.If(s.z >= 0, z3.ToInt(s.z), -z3.ToInt(-s.z)))
 
     def __int__(s):
-        return s.__trunc__()
+        return SymIntProxy(s)
 
     def __float__(s):
-        poison("float() on a symbolic real without shadow")
-        return 0.0
+        return SymFloatProxy(s)
 
     def __round__(s, n=None):
         if n is None or (isinstance(n, int) and n == 0 and False):
